@@ -46,6 +46,14 @@ class C09(Prop):
                 cands.append({'tok': newtok(), 'sf': newtok(), 'col': col})
             tok[0] = 0
             yield {'kind': 'store', 'init': 1000, 'nevents': 1, 'nrows': nrows, 'batches': [{'cands': cands, 'n': k}], 'discard': 0.0, 'extra_n': 0}
+        # result batches as the real forward task delivers them (sharp polarity data: many candidates and some whole batches have zero probability; with
+        # location samples kept apart a candidate can be impossible for some of them only), fed to the sampling algorithm; optionally the algorithm is
+        # initialised again between two batches (what the front end does after a failed job)
+        combos = [(1, True), (1, False), (3, True), (3, False), (3, False), (2, False)]
+        for _f in range(6 if tier == 'quick' else 60):
+            nloc_, marg_ = combos[_f % len(combos)]
+            yield {'kind': 'fwd', 'seed': rng.randrange(1 << 30), 'nbatch': rng.randint(3, 9), 'bs': rng.choice([3, 6, 11, 40]), 'nloc': nloc_,
+                   'marginalise': marg_, 'reinit_at': rng.choice([None, None, 0, 1, 2]), 'limit_batches': rng.randint(2, 9)}
         for i in range(n):
             if rng.random() < 0.85:
                 init = rng.choice([1, 2, 3, 4, 7])
@@ -90,8 +98,48 @@ class C09(Prop):
                 m[6, j] = -c['tok']
         return m
 
+    def _impl_fwd(self, case):
+        np = self.np
+        from MTfit import inversion as inv
+        from MTfit.probability import probability as pr
+        rs = np.random.RandomState(case['seed'] % (2 ** 32))
+        nsta, nloc, bs = 5, case['nloc'], case['bs']
+        a = rs.uniform(-1, 1, (nsta, nloc, 6))
+        sigma = 1e-3 * np.ones(nsta)
+        mtrue = rs.randn(6)
+        meas = np.sign(np.tensordot(a[:, 0, :], mtrue, 1))
+        a_pol = a * meas[:, None, None]
+        limit = bs * case['limit_batches']
+        alg = self.mc.IterationSample(number_samples=bs, max_samples=limit)
+        alg.initialise()
+        fed, expected_cols, consumed, ended_at = 0, [], 0, None
+        for b in range(case['nbatch']):
+            m = rs.randn(6, bs)
+            m /= np.sqrt((m * m).sum(0))
+            task = inv.ForwardTask(m.copy(), a_pol.copy(), sigma.copy(), False, False, False, False, False, False, False,
+                                   location_sample_multipliers=False, incorrect_polarity_prob=0, return_zero=False, marginalise=case['marginalise'])
+            res = task()
+            ln = np.asarray(pr.polarity_ln_pdf(a_pol.copy(), m.copy(), sigma.copy(), 0.0, _use_c=False), dtype=float).reshape(nloc, bs)
+            keep = np.isfinite(ln).any(axis=0)
+            expected_cols += [tuple(float(v) for v in m[:, j]) for j in range(bs) if keep[j]]
+            fed += bs
+            consumed += 1
+            _t, end = alg.iterate(res)
+            if end:
+                ended_at = consumed
+                break
+            if case['reinit_at'] == b:
+                alg.initialise()
+        out, _txt = alg.output(normalise=True, convert=False, discard=0)
+        M = np.asarray(out.get('moment_tensor_space', np.zeros((6, 0))), dtype=float)
+        M = M.reshape(6, -1) if M.size else np.zeros((6, 0))
+        return {'fed': fed, 'n': int(alg.pdf_sample.n), 'total_reported': int(out.get('total_number_samples', -1)), 'ended_at': ended_at, 'consumed': consumed,
+                'stored': sorted(tuple(float(v) for v in M[:, j]) for j in range(M.shape[1])), 'expected': sorted(expected_cols), 'limit': limit}
+
     def impl(self, case):
         np = self.np
+        if case['kind'] == 'fwd':
+            return self._impl_fwd(case)
         if case['kind'] == 'iter':
             alg = self.mc.IterationSample(max_samples=case['max_samples'], number_samples=case['number_samples'])
             alg.initialise()
@@ -153,6 +201,8 @@ class C09(Prop):
 
     # ------------------------------------------------------------------ model
     def requests(self, case, impl):
+        if case['kind'] == 'fwd':
+            return []
         if case['kind'] == 'iter':
             return ['iterstop %d %d %s' % (case['max_samples'], len(case['sizes']), ' '.join(str(s) for s in case['sizes']))]
         toks = [str(case['init']), str(len(case['batches']))]
@@ -183,6 +233,8 @@ class C09(Prop):
     def compare(self, case, impl, replies):
         if 'exc' in impl:
             return [('implementation raised %s: %s' % (impl['exc'], impl.get('msg')), impl)]
+        if case['kind'] == 'fwd':
+            return []
         if case['kind'] == 'iter':
             m = int(replies[0])
             exp = min(m, len(case['sizes']))
@@ -213,6 +265,18 @@ class C09(Prop):
         if 'exc' in impl:
             return [('raises', '%s raised %s: %s' % (case['kind'], impl['exc'], impl.get('msg')), impl)]
         out = []
+        if case['kind'] == 'fwd':
+            if impl['n'] != impl['fed'] or impl['total_reported'] != impl['fed']:
+                out.append(('tried-count', 'forward-task batches of %d candidates were fed %d times (%d tried); the store counts %d, the output reports %d (location samples %d, marginalise %s, '
+                            're-initialised after batch %r)' % (case['bs'], impl['consumed'], impl['fed'], impl['n'], impl['total_reported'], case['nloc'], case['marginalise'], case['reinit_at']), None))
+            if impl['stored'] != impl['expected']:
+                out.append(('forward-candidates', 'the store holds %d tensors, the batches contained %d candidates of non-zero probability (location samples %d, marginalise %s, re-initialised after '
+                            'batch %r)' % (len(impl['stored']), len(impl['expected']), case['nloc'], case['marginalise'], case['reinit_at']), None))
+            first = next((b + 1 for b in range(case['nbatch']) if (b + 1) * case['bs'] >= impl['limit']), None)
+            if impl['ended_at'] != first and not (first is None and impl['ended_at'] is None):
+                out.append(('iteration-stop', 'sampling limited to %d tried samples with batches of %d ended at batch %r, the limit is first reached at batch %r'
+                            % (impl['limit'], case['bs'], impl['ended_at'], first), None))
+            return out[:3]
         if case['kind'] == 'iter':
             cum, exp = 0, len(case['sizes'])
             for j, sz in enumerate(case['sizes']):
@@ -281,11 +345,15 @@ class C09(Prop):
         return out
 
     def nontrivial(self, case, impl):
+        if case['kind'] == 'fwd':
+            return True
         if case['kind'] == 'iter':
             return len(case['sizes']) > 1
         return isinstance(impl, dict) and impl.get('cap', 0) > case['init']
 
     def branch(self, case, impl):
+        if case['kind'] == 'fwd':
+            return 'fwd/loc%d/%s' % (case['nloc'], 'marg' if case['marginalise'] else 'rows')
         if case['kind'] == 'iter':
             return 'iter'
         grew = isinstance(impl, dict) and impl.get('cap', 0) > case['init']
